@@ -85,7 +85,8 @@ Definition plans_of (cf : config) (e : env) : list (list call) :=
   end.
 
 (* nothing is decided by Go's scheduler: no answer of a step is due at the instant the context ends, no
-   two relay goroutines act at one instant *)
+   other relay's call returns at the instant of the first delivery, neither that nor the last relay's
+   giving up coincides with the end of the context *)
 Definition tie_free_t (cf : config) (e : env) (l : lats) (m : timed) : bool :=
   let e1 := apply_cuts e (t_cuts m) (e_deadline e - t_t0 m) in
   negb (steps_tie e l)
@@ -232,14 +233,9 @@ Definition unblind_calls_ok (c : case) : bool :=
            && Nat.eqb (count_events ev_sign_block (o_events obs)) 1
            && match expected_signed c with
               | Some sp =>
-                  forallb (fun call =>
-                    ureq_eqb (snd call) (unblind_request sp)
-                    (* a retry that starts after the submission may have lost its block: the
-                       collector clears the blinded container it reads *)
-                    || match o_submit obs with
-                       | Some (t, _) => (t <? fst call) && ureq_eqb (snd call) {| u_version := sp_version sp; u_conts := [] |}
-                       | None => false
-                       end) calls
+                  (* every call, also a retry made after the submission (the requests are built
+                     before the relay goroutines start) *)
+                  forallb (fun call => ureq_eqb (snd call) (unblind_request sp)) calls
               | None => false
               end))
      (indexed 0 (o_unblind obs)).
@@ -299,10 +295,11 @@ Definition no_relay_no_submit_b (c : case) : bool :=
        other relays are doing then (still inside their call, hanging until the context ends, failing,
        slow to give up).  With 4 (what is submitted was delivered by then) the submission is the
        earliest full block, at the instant it came back.
-       Left to Go's scheduler, and exempt: another relay's call returning WITHOUT a block at the very
-       instant [f] (each returning call probes the semaphore with TryAcquire/Release, so the call
-       that brings the block can find it held by the other's probe and leave without handing the
-       block over). *)
+       No exception for another relay's call returning without a block at the very instant [f]: a
+       relay that has a block always hands it over (before the repair of unblindProposal every
+       returning call probed a semaphore with TryAcquire/Release, and the call that brought the
+       block could find it held by the other's probe and leave without handing the block over:
+       about 1 run in 2500-6000 of corpus/C05/block_and_failure_return_together.json). *)
 Definition call_returns (deadline : N) (r : relay) (k : nat) (st : N) : N :=
   match scripted r k with
   | UHang => N.max st deadline + scripted_lat r k
@@ -320,9 +317,6 @@ Definition returned_calls (c : case) : list (N * bool) :=
                     (indexed 0 calls)
     end) (indexed 0 (o_unblind (c_obs c))).
 
-Definition scheduler_decides (c : case) (f : N) : bool :=
-  existsb (fun fb : N * bool => (fst fb =? f) && negb (snd fb)) (returned_calls c).
-
 Definition submitted_by (c : case) (f : N) : bool :=
   match o_submit (c_obs c) with Some (t, _) => t <=? f | None => false end.
 
@@ -336,7 +330,7 @@ Definition first_block_submitted (c : case) : bool :=
   negb (unblinds_to c)
   || forallb (fun fb : N * bool =>
        let '(f, ok) := fb in
-       negb ok || negb (f <? e_deadline (c_env c)) || scheduler_decides c f || submitted_by c f)
+       negb ok || negb (f <? e_deadline (c_env c)) || submitted_by c f)
      (returned_calls c).
 
 (* 1b. a duty whose Prepare succeeded carries, when it is handed to Propose, the account the provider
